@@ -175,9 +175,13 @@ def run_c18(tier, seed):
             oc.samples.append({'label': lbl, 'text': text[:500], 'sources': {k: v.get('cls', v.get('err')) for k, v in res.items()}})
     # other encodings: bytes, file and S3 object must agree with the str of the same content
     body = TJ.to_text(E('mos', E('mosID', text='café'), E('messageID', text='7'), E('roDelete', E('roID', text='RÖ-é'))))
-    for enc, decl in (('iso-8859-1', '<?xml version="1.0" encoding="ISO-8859-1"?>'), ('utf-16', '<?xml version="1.0" encoding="UTF-16"?>'),
-                      ('utf-8', '<?xml version="1.0" encoding="UTF-8"?>')):
-        data = (decl + body).encode(enc)
+    import codecs
+    variants = []
+    for enc, decl, bom in (('iso-8859-1', 'ISO-8859-1', b''), ('utf-16', 'UTF-16', b''), ('utf-8', 'UTF-8', b''), ('utf-8', 'UTF-8', codecs.BOM_UTF8),
+                           ('utf-16-be', 'UTF-16', codecs.BOM_UTF16_BE), ('utf-16-le', 'UTF-16', codecs.BOM_UTF16_LE), ('cp1252', 'windows-1252', b'')):
+        for trailer in ('', '\n', '\r\n  \n'):           # trailing blanks after the root are part of many stored files
+            variants.append((f'{enc}{"+BOM" if bom else ""} trailer={trailer!r}', bom + ('<?xml version="1.0" encoding="%s"?>' % decl + body + trailer).encode(enc)))
+    for enc, data in variants:
         res = from_all_sources(None, data)
         expect = from_all_sources(body)['str']
         oc.evaluations += 1
@@ -226,6 +230,10 @@ def run_c18(tier, seed):
     for k, lst in enumerate([[t_ro, t1, t2], [t_ro, t2, t1], [t2, t_ro, t1], [t1, t2, t_ro], [t_ro, t_ins, t_del], [t_ro, t_del, t_ins],
                              [t_del, t2, t_ins, t_ro, t1]]):
         coll_lists.append((f'tied message IDs #{k}', lst))
+    # the same delivery stored twice (two files / keys / list entries with identical content) is two messages
+    coll_lists.append(('same content twice', [t_ro, t1, t1]))
+    coll_lists.append(('same content twice, interleaved', [t1, t_ro, t2, t1]))
+    coll_lists.append(('roCreate twice', [t_ro, t_ro, t1]))
     for label, docs in coll_lists:
         h = {'docs': docs, 'seed': label}
         outs = {via: coll_family.impl_collection(h['docs'], True, False, via=via) for via in ('strings', 'files', 's3')}
@@ -312,6 +320,11 @@ def file_pool(rng):
     pool['itemreplace_blank.mos.xml'] = ('xml', TJ.to_text(B.item_replace(B.BLANK, B.BLANK, [E('item', E('itemID'))], message_id='95')))
     pool['ea_move_notarget.mos.xml'] = ('xml', TJ.to_text(B.ea('MOVE', B.ABSENT, [B.ids('storyID', [B.BLANK])], message_id='96')))
     pool['ea_swap_blank.mos.xml'] = ('xml', TJ.to_text(B.ea('SWAP', {'storyID': B.BLANK}, [B.ids('itemID', [B.BLANK, B.BLANK])], message_id='97')))
+    # names with glob metacharacters, next to files their pattern would match
+    pool['story[1].mos.xml'] = ('xml', TJ.to_text(B.story_append([B.story('G1')], message_id='81')))
+    pool['story1.mos.xml'] = ('xml', TJ.to_text(B.story_delete(['A'], message_id='82')))
+    pool['st*ry1.mos.xml'] = ('xml', TJ.to_text(B.ready_to_air(message_id='83')))
+    pool['story?.mos.xml'] = ('xml', TJ.to_text(B.story_move(['A', 'B'], message_id='84')))
     pool['notxml.txt'] = ('notxml', 'this is not xml <')
     pool['empty.xml'] = ('notxml', '')
     pool['unknown.xml'] = ('xml', '<mos><mosID>x</mosID><somethingElse/></mos>')
@@ -341,6 +354,9 @@ def model_files(pool, names, root):
         else:
             out.append([path, {'notxml': 'notxml', 'missing': 'missing', 'directory': 'directory'}[spec[0]]])
     return out
+
+
+OLD_CONTENT = '<!-- older, longer content -->' + 'x' * 200000
 
 
 def outfile_writable(path):
@@ -546,13 +562,17 @@ def run_c19(tier, seed):
                     oc.nontrivial.add(stable_hash([cmd, lst]))
             else:
                 outp = os.path.join(root, opts['outfile']) if opts['outfile'] else None
-                if outp and os.path.isfile(outp):
-                    os.unlink(outp)
+                if outp and (os.path.isfile(outp) or (not os.path.exists(outp) and outfile_writable(outp))):
+                    # the target already exists and is longer than anything that will be written
+                    with open(outp, 'w', encoding='utf-8') as f:
+                        f.write(OLD_CONTENT)
                 argv = ['merge', '-f'] + paths + (['-o', outp] if outp else []) + (['-i'] if opts['incomplete'] else []) + \
                        (['-n'] if opts['non_strict'] else [])
                 so, se, rv = run_cli(argv)
                 status = 0 if rv is None else rv
-                written = open(outp, encoding='utf-8').read() if outp and os.path.isfile(outp) else None
+                written = open(outp, encoding='utf-8', newline='').read() if outp and os.path.isfile(outp) else None
+                if written == OLD_CONTENT:
+                    written = None           # the older file was left alone: nothing was written
                 got = {'status': status, 'stdout': so, 'written': written}
                 model = {'status': r['status'], 'stdout': (r['stdout'] + '\n') if r['stdout'] is not None else '', 'written': r['written']}
                 if got != model:
